@@ -123,7 +123,7 @@ Proof.
   destruct (valid d (snd nv)); [|reflexivity]. destruct (p_wfunc p); reflexivity.
 Qed.
 
-Lemma startup_shape i : mexport (i_mvals i) && has_thread i = true ->
+Lemma startup_shape i : has_thread i = true ->
   exists ws rs, startup i = ws ++ EvInit :: rs /\ forallb is_write ws = true /\ forallb is_read rs = true /\
                 ws = flat_map (write_one (i_params i)) (i_write i) /\ rs = map EvRead (polled_names i).
 Proof.
@@ -132,7 +132,7 @@ Proof.
   - induction (polled_names i); simpl; [reflexivity|exact IHl].
 Qed.
 
-Lemma startup_none i : mexport (i_mvals i) && has_thread i = false -> startup i = [].
+Lemma startup_none i : has_thread i = false -> startup i = [].
 Proof. intros H. unfold startup. rewrite H. reflexivity. Qed.
 
 Lemma writes_for_app n a b : writes_for n (a ++ b) = writes_for n a ++ writes_for n b.
@@ -179,11 +179,11 @@ Qed.
 
 Lemma startup_writes i n : NoDup (map fst (i_write i)) ->
   writes_for n (startup i) =
-  if mexport (i_mvals i) && has_thread i
+  if has_thread i
   then match assoc_str n (i_write i) with Some v => handed (i_params i) n v | None => [] end
   else [].
 Proof.
-  intros ND. destruct (mexport (i_mvals i) && has_thread i) eqn:E.
+  intros ND. destruct (has_thread i) eqn:E.
   - unfold startup. rewrite E. change ([EvInit] ++ map EvRead (polled_names i)) with (EvInit :: map EvRead (polled_names i)).
     rewrite writes_for_app, writes_for_reads, app_nil_r. apply writes_for_dict. exact ND.
   - rewrite startup_none; [reflexivity|exact E].
@@ -196,7 +196,7 @@ Proof. intros H. apply app_eq_nil in H. destruct H as [H1 H2]. apply app_eq_nil 
 Lemma created_inv C c i : mod_init C c = Created i ->
   exists mv accs ps,
     phaseA C c = Some (mv, []) /\ phaseB (mexport mv) (c_params C) c = Some accs /\
-    flat_map a_errs accs = [] /\ unknown_names C c = [] /\
+    flat_map a_errs accs = [] /\ dup_errs [] accs = [] /\ unknown_names C c = [] /\
     map_opt finish_param (map a_param accs) = Some ps /\
     check_module C mv = [] /\ flat_map check_param (map (apply_main (main_unit ps)) ps) = [] /\
     i = {| i_mvals := mv; i_params := map (apply_main (main_unit ps)) ps; i_write := writes_of accs;
@@ -206,9 +206,10 @@ Proof.
   destruct (phaseB (mexport mv) (c_params C) c) as [accs|] eqn:EB; [|discriminate].
   destruct (map_opt finish_param (map a_param accs)) as [ps|] eqn:EF; [|discriminate].
   destruct (unknown_names C c) eqn:EU.
-  2:{ destruct esA; simpl; try discriminate. destruct (flat_map a_errs accs); discriminate. }
+  2:{ destruct esA; simpl; try discriminate. destruct (flat_map a_errs accs); simpl; try discriminate.
+      destruct (dup_errs [] accs); discriminate. }
   match goal with |- context [match (esA ++ ?X) with _ => _ end] => destruct (esA ++ X) eqn:E end.
-  - apply app_nil3 in E. destruct E as [E1 [E2 E3]].
+  - apply app_nil3 in E. destruct E as [E1 [E2 E3]]. apply app_eq_nil in E2. destruct E2 as [E2 E2'].
     destruct (check_module C mv ++ flat_map check_param (map (apply_main (main_unit ps)) ps)) eqn:E4; [|discriminate].
     apply app_eq_nil in E4. destruct E4 as [E4 E5]. intros H. inversion H. subst esA.
     exists mv, accs, ps. repeat split; try assumption; try reflexivity.
@@ -384,33 +385,41 @@ Proof.
     + destruct (p_default p); intros H; inversion H; subst; exists d; simpl; repeat split; try reflexivity; try assumption; discriminate.
 Qed.
 
-Definition p0_of (mexp : bool) (p : param) : param := if mexp then p else set_export p XFalse.
-Lemma p0_keeps mexp p : keeps p (p0_of mexp p) /\ p_value (p0_of mexp p) = p_value p /\ p_needscfg (p0_of mexp p) = p_needscfg p
-  /\ p_descr (p0_of mexp p) = p_descr p /\ p_dt (p0_of mexp p) = p_dt p.
-Proof. unfold p0_of. destruct mexp; simpl; repeat split; try reflexivity; apply conv_eq_refl. Qed.
+Lemma post_keeps mexp p : keeps p (post mexp p) /\ p_value (post mexp p) = p_value p /\
+  p_needscfg (post mexp p) = p_needscfg p /\ p_descr (post mexp p) = p_descr p /\ p_dt (post mexp p) = p_dt p /\
+  p_export (post mexp p) <> XTrue.
+Proof.
+  unfold post, fix_export. destruct mexp; simpl.
+  - destruct (p_export p) eqn:E; simpl; repeat split; try reflexivity; try apply conv_eq_refl; try rewrite E; discriminate.
+  - repeat split; try reflexivity; try apply conv_eq_refl. discriminate.
+Qed.
+Lemma post_cmd mexp p : p_iscmd (post mexp p) = p_iscmd p.
+Proof. destruct (post_keeps mexp p) as [K _]. exact (k_cmd _ _ K). Qed.
+Lemma post_dt mexp p : p_dt (post mexp p) = p_dt p.
+Proof. destruct (post_keeps mexp p) as [_ [_ [_ [_ [H _]]]]]. exact H. Qed.
 
 Lemma acc_step_ok mexp p e a : p_iscmd p = false -> acc_step mexp p e = Some a -> a_errs a = [] ->
   exists p1, (match e with
-              | Some (CDict en) => apply_entry_keep (p0_of mexp p) en = (p1, PGo p1)
-              | None => p1 = p0_of mexp p
+              | Some (CDict en) => apply_entry_keep p en = (p1, PGo p1)
+              | None => p1 = p
               | Some (CRaw _) => False
               end) /\
-             handle_writes p1 = (a_param a, [], a_write a).
+             handle_writes (post mexp p1) = (a_param a, [], a_write a) /\ a_name a = name_of (post mexp p1).
 Proof.
-  intros Hc. unfold acc_step. fold (p0_of mexp p). set (p0 := p0_of mexp p).
-  assert (Hc0 : p_iscmd p0 = false) by (unfold p0; destruct (p0_keeps mexp p) as [K _]; rewrite (k_cmd _ _ K); exact Hc).
+  intros Hc. unfold acc_step.
   destruct e as [[v|en]|].
   - discriminate.
-  - destruct (apply_entry_keep p0 en) as [pk r] eqn:E. destruct r as [|er|p1].
+  - destruct (apply_entry_keep p en) as [pk r] eqn:E. destruct r as [|er|p1].
     + discriminate.
-    + destruct (p_iscmd pk); [intros H; inversion H; subst; simpl; discriminate|].
-      destruct (handle_writes pk) as [[p2 es] w]. intros H; inversion H; subst; simpl; discriminate.
+    + cbv zeta. destruct (p_iscmd (post mexp pk)); [intros H; inversion H; subst; simpl; discriminate|].
+      destruct (handle_writes (post mexp pk)) as [[p2 es] w]. intros H; inversion H; subst; simpl; discriminate.
     + pose proof (apply_entry_keep_go _ _ _ _ E). subst pk.
-      destruct (entry_inv _ _ _ Hc0 E) as [K _]. rewrite (k_cmd _ _ K), Hc0.
-      destruct (handle_writes p1) as [[p2 es] w] eqn:Eh. intros H; inversion H; subst; simpl. intros He; subst es.
-      exists p1. split; [reflexivity|exact Eh].
-  - rewrite Hc0. destruct (handle_writes p0) as [[p2 es] w] eqn:Eh. intros H; inversion H; subst; simpl. intros He; subst es.
-    exists p0. split; [reflexivity|exact Eh].
+      destruct (entry_inv _ _ _ Hc E) as [K _]. cbv zeta. rewrite post_cmd, (k_cmd _ _ K), Hc.
+      destruct (handle_writes (post mexp p1)) as [[p2 es] w] eqn:Eh. intros H; inversion H; subst; simpl. intros He; subst es.
+      exists p1. split; [reflexivity|split; [exact Eh|reflexivity]].
+  - cbv beta iota zeta. rewrite post_cmd, Hc.
+    destruct (handle_writes (post mexp p)) as [[p2 es] w] eqn:Eh. intros H; inversion H; subst; simpl. intros He; subst es.
+    exists p. split; [reflexivity|split; [exact Eh|reflexivity]].
 Qed.
 
 Lemma finish_param_ok p y : p_iscmd p = false -> finish_param p = Some y ->
@@ -425,7 +434,8 @@ Qed.
 
 Lemma apply_main_keeps main p :
   p_name (apply_main main p) = p_name p /\ p_dt (apply_main main p) = p_dt p /\ p_value (apply_main main p) = p_value p
-  /\ p_descr (apply_main main p) = p_descr p /\ p_iscmd (apply_main main p) = p_iscmd p /\ p_wfunc (apply_main main p) = p_wfunc p.
+  /\ p_descr (apply_main main p) = p_descr p /\ p_iscmd (apply_main main p) = p_iscmd p /\ p_wfunc (apply_main main p) = p_wfunc p
+  /\ p_export (apply_main main p) = p_export p.
 Proof.
   unfold apply_main. destruct main; [repeat split; reflexivity|].
   destruct (p_dt p) eqn:E; [|repeat split; try reflexivity; try (symmetry; exact E); exact E].
@@ -438,23 +448,23 @@ Lemma created_param C c i p : mod_init C c = Created i -> In p (c_params C) -> p
   exists mv a p1 y p',
     acc_step (mexport mv) p (assoc_str (p_name p) c) = Some a /\
     (match assoc_str (p_name p) c with
-     | Some (CDict en) => apply_entry_keep (p0_of (mexport mv) p) en = (p1, PGo p1)
-     | None => p1 = p0_of (mexport mv) p
+     | Some (CDict en) => apply_entry_keep p en = (p1, PGo p1)
+     | None => p1 = p
      | Some (CRaw _) => False
      end) /\
-    handle_writes p1 = (a_param a, [], a_write a) /\
+    handle_writes (post (mexport mv) p1) = (a_param a, [], a_write a) /\
     finish_param (a_param a) = Some y /\ In p' (i_params i) /\
     p_name p' = p_name y /\ p_dt p' = p_dt y /\ p_value p' = p_value y /\ p_descr p' = p_descr y /\ p_iscmd p' = p_iscmd y /\
     check_param p' = [] /\
     (forall v, a_write a = Some v -> In (p_name (a_param a), v) (i_write i)).
 Proof.
-  intros H Hin Ho Hc. destruct (created_inv _ _ _ H) as [mv [accs [ps [EA [EB [Eerr [EU [EF [ECm [ECp Ei]]]]]]]]]].
+  intros H Hin Ho Hc. destruct (created_inv _ _ _ H) as [mv [accs [ps [EA [EB [Eerr [Edup [EU [EF [ECm [ECp Ei]]]]]]]]]]].
   destruct (phaseB_in _ _ _ _ _ EB Hin Ho) as [a [Ha Hs]].
   pose proof (flat_map_nil _ _ _ Eerr Ha) as Hae.
-  destruct (acc_step_ok _ _ _ _ Hc Hs Hae) as [p1 [He Hh]].
+  destruct (acc_step_ok _ _ _ _ Hc Hs Hae) as [p1 [He [Hh _]]].
   destruct (map_opt_in finish_param _ _ (a_param a) EF) as [y [Hy Hyin]]; [apply in_map; exact Ha|].
   exists mv, a, p1, y, (apply_main (main_unit ps) y).
-  destruct (apply_main_keeps (main_unit ps) y) as [M1 [M2 [M3 [M4 [M5 M6]]]]].
+  destruct (apply_main_keeps (main_unit ps) y) as [M1 [M2 [M3 [M4 [M5 [M6 M7]]]]]].
   subst i. simpl. repeat split; try assumption.
   - apply in_map. exact Hyin.
   - eapply flat_map_nil; [exact ECp|]. apply in_map. exact Hyin.
@@ -462,9 +472,6 @@ Proof.
 Qed.
 
 (* ------------------------------------------------------------------ the property-level statements *)
-Lemma p0_dt mexp p : p_dt (p0_of mexp p) = p_dt p.
-Proof. destruct (p0_keeps mexp p) as [_ [_ [_ [_ H]]]]. exact H. Qed.
-
 Lemma value_applied C c i p d en v :
   mod_init C c = Created i -> In p (c_params C) -> p_optional p = false -> p_iscmd p = false -> p_dt p = Some d ->
   assoc_str (p_name p) c = Some (CDict en) -> NoDup (map fst en) -> In (k_value, v) en ->
@@ -475,32 +482,30 @@ Proof.
   intros H Hin Ho Hc Hd Hcfg ND Hv.
   destruct (created_param _ _ _ _ H Hin Ho Hc) as [mv [a [p1 [y [p' [Hs [He [Hh [Hf [Hp' [N1 [D1 [V1 [_ [_ [_ Hw]]]]]]]]]]]]]]]].
   rewrite Hcfg in He.
-  assert (Hc0 : p_iscmd (p0_of (mexport mv) p) = false).
-  { destruct (p0_keeps (mexport mv) p) as [K _]. rewrite (k_cmd _ _ K). exact Hc. }
-  destruct (entry_inv _ _ _ Hc0 He) as [K [Cv [_ Vv]]].
+  destruct (entry_inv _ _ _ Hc He) as [K [Cv [_ Vv]]].
   pose proof (Vv v ND Hv) as Hval.
-  destruct (Cv k_value v d Hv) as [c1 Hc1]; [vm_compute; reflexivity|rewrite p0_dt; exact Hd|].
+  destruct (Cv k_value v d Hv) as [c1 Hc1]; [vm_compute; reflexivity|exact Hd|].
+  destruct (post_keeps (mexport mv) p1) as [K0 [PV [_ [_ [PD _]]]]].
   destruct (handle_writes_ok _ _ _ Hh) as [d1 [Hd1 [_ [Hd2 [Hn2 [Hc2 [_ Hm]]]]]]].
-  rewrite Hval in Hm. destruct Hm as [Hv2 Hw2].
-  pose proof (k_dt _ _ K) as Hq. rewrite p0_dt, Hd, Hd1 in Hq. simpl in Hq.
+  rewrite PV, Hval in Hm. destruct Hm as [Hv2 Hw2]. rewrite PD in Hd1.
+  pose proof (k_dt _ _ K) as Hq. rewrite Hd, Hd1 in Hq. simpl in Hq.
   assert (Hca : p_iscmd (a_param a) = false).
-  { rewrite Hc2, (k_cmd _ _ K). exact Hc0. }
+  { rewrite Hc2, (k_cmd _ _ K0), (k_cmd _ _ K). exact Hc. }
   destruct (finish_param_ok _ _ Hca Hf) as [Fn [Fd [_ [_ Fr]]]].
   exists p', d1, c1. split; [exact Hp'|]. split; [|split; [|split; [exact Hq|split; [exact Hc1|split]]]].
-  - rewrite N1, Fn, Hn2, (k_name _ _ K). destruct (p0_keeps (mexport mv) p) as [K0 _]. apply (k_name _ _ K0).
+  - rewrite N1, Fn, Hn2, (k_name _ _ K0). apply (k_name _ _ K).
   - rewrite D1, Fd. exact Hd2.
   - rewrite V1. rewrite Hd2, Hv2 in Fr. rewrite <- Hq, Hc1 in Fr. unfold refit in Fr. rewrite <- Hq in Fr.
     destruct (conv d c1) as [c2|e]; [inversion Fr; reflexivity|]. destruct (is_bad_value e); [inversion Fr; reflexivity|discriminate].
   - intros Hhw. assert (a_write a = Some v) as Hwa.
-    { rewrite Hw2, (k_hw _ _ K). destruct (p0_keeps (mexport mv) p) as [K0 _]. rewrite (k_hw _ _ K0), Hhw. reflexivity. }
-    apply Hw in Hwa. rewrite Hn2, (k_name _ _ K) in Hwa. destruct (p0_keeps (mexport mv) p) as [K0 _].
-    rewrite (k_name _ _ K0) in Hwa. exact Hwa.
+    { rewrite Hw2, (k_hw _ _ K0), (k_hw _ _ K), Hhw. reflexivity. }
+    apply Hw in Hwa. rewrite Hn2, (k_name _ _ K0), (k_name _ _ K) in Hwa. exact Hwa.
 Qed.
 
 Lemma unknown_name_rejected C c k i :
   In k (map fst c) -> mem_str k (known_names C) = false -> mod_init C c <> Created i.
 Proof.
-  intros Hin Hk H. destruct (created_inv _ _ _ H) as [mv [accs [ps [_ [_ [_ [EU _]]]]]]].
+  intros Hin Hk H. destruct (created_inv _ _ _ H) as [mv [accs [ps [_ [_ [_ [_ [EU _]]]]]]]].
   unfold unknown_names in EU. assert (In k (filter (fun k0 => negb (mem_str k0 (known_names C))) (map fst c))).
   { apply filter_In. split; [exact Hin|]. rewrite Hk. reflexivity. }
   rewrite EU in H0. destruct H0.
@@ -514,10 +519,8 @@ Proof.
   intros Hin Ho Hc Hd Hcfg Hkv Hm Hcv H.
   destruct (created_param _ _ _ _ H Hin Ho Hc) as [mv [a [p1 [y [p' [Hs [He _]]]]]]].
   rewrite Hcfg in He.
-  assert (Hc0 : p_iscmd (p0_of (mexport mv) p) = false).
-  { destruct (p0_keeps (mexport mv) p) as [K _]. rewrite (k_cmd _ _ K). exact Hc. }
-  destruct (entry_inv _ _ _ Hc0 He) as [_ [Cv _]].
-  destruct (Cv k v d Hkv Hm) as [c1 Hc1]; [rewrite p0_dt; exact Hd|]. rewrite Hcv in Hc1. discriminate.
+  destruct (entry_inv _ _ _ Hc He) as [_ [Cv _]].
+  destruct (Cv k v d Hkv Hm Hd) as [c1 Hc1]. rewrite Hcv in Hc1. discriminate.
 Qed.
 
 Lemma raw_section_rejected C c i p v :
@@ -536,7 +539,7 @@ Proof.
   intros Hin Ho Hc Hn Hv Hcfg H.
   destruct (created_param _ _ _ _ H Hin Ho Hc) as [mv [a [p1 [y [p' [Hs [He [Hh _]]]]]]]].
   rewrite Hcfg in He. subst p1. destruct (handle_writes_ok _ _ _ Hh) as [d1 [_ [Hnc _]]].
-  destruct (p0_keeps (mexport mv) p) as [_ [Hv0 [Hn0 _]]]. apply Hnc; [rewrite Hn0; exact Hn|rewrite Hv0; exact Hv].
+  destruct (post_keeps (mexport mv) p) as [_ [Hv0 [Hn0 _]]]. apply Hnc; [rewrite Hn0; exact Hn|rewrite Hv0; exact Hv].
 Qed.
 
 Lemma missing_description_rejected C c i p :
@@ -547,24 +550,24 @@ Proof.
   destruct (created_param _ _ _ _ H Hin Ho Hc) as [mv [a [p1 [y [p' [Hs [He [Hh [Hf [Hp' [N1 [D1 [V1 [De1 [Cm1 [Hck _]]]]]]]]]]]]]]]].
   rewrite Hcfg in He. subst p1. destruct (handle_writes_ok _ _ _ Hh) as [d1 [_ [_ [_ [_ [Hc2 [Hde _]]]]]]].
   assert (Hca : p_iscmd (a_param a) = false).
-  { rewrite Hc2. destruct (p0_keeps (mexport mv) p) as [K _]. rewrite (k_cmd _ _ K). exact Hc. }
+  { rewrite Hc2, post_cmd. exact Hc. }
   destruct (finish_param_ok _ _ Hca Hf) as [_ [_ [Fde _]]].
   unfold check_param in Hck. rewrite De1, Fde, Hde in Hck.
-  destruct (p0_keeps (mexport mv) p) as [_ [_ [_ [Hd0 _]]]]. rewrite Hd0, Hdn in Hck. discriminate.
+  destruct (post_keeps (mexport mv) p) as [_ [_ [_ [Hd0 _]]]]. rewrite Hd0, Hdn in Hck. discriminate.
 Qed.
 
-(* limits of a parameter of a created module are never inverted - for a numeric datatype used directly *)
-Lemma no_inverted_leaf C c i p d :
-  mod_init C c = Created i -> In p (i_params i) -> p_iscmd p = false -> p_dt p = Some d -> leaf_inverted d = false.
+(* limits of a parameter of a created module are never inverted, also not on the element type of an array *)
+Lemma no_inverted_limits C c i p d :
+  mod_init C c = Created i -> In p (i_params i) -> p_iscmd p = false -> p_dt p = Some d -> dt_inverted d = false.
 Proof.
-  intros H Hin Hc Hd. destruct (created_inv _ _ _ H) as [mv [accs [ps [_ [_ [_ [_ [_ [_ [ECp Ei]]]]]]]]]].
+  intros H Hin Hc Hd. destruct (created_inv _ _ _ H) as [mv [accs [ps [_ [_ [_ [_ [_ [_ [_ [ECp Ei]]]]]]]]]]].
   subst i. simpl in Hin. pose proof (flat_map_nil _ _ _ ECp Hin) as Hck. unfold check_param in Hck.
-  destruct (p_descr p); [|discriminate]. rewrite Hc, Hd in Hck. destruct (leaf_inverted d); [discriminate|reflexivity].
+  destruct (p_descr p); [|discriminate]. rewrite Hc, Hd in Hck. destruct (dt_inverted d); [discriminate|reflexivity].
 Qed.
 
 Lemma created_has_description C c i p : mod_init C c = Created i -> In p (i_params i) -> p_descr p <> None.
 Proof.
-  intros H Hin. destruct (created_inv _ _ _ H) as [mv [accs [ps [_ [_ [_ [_ [_ [_ [ECp Ei]]]]]]]]]].
+  intros H Hin. destruct (created_inv _ _ _ H) as [mv [accs [ps [_ [_ [_ [_ [_ [_ [_ [ECp Ei]]]]]]]]]]].
   subst i. simpl in Hin. pose proof (flat_map_nil _ _ _ ECp Hin) as Hck. unfold check_param in Hck.
   destruct (p_descr p); [discriminate|discriminate].
 Qed.
@@ -601,26 +604,50 @@ Proof.
   unfold handle_writes. destruct (p_dt p); [|reflexivity]. destruct (p_value p); [reflexivity|].
   destruct (p_default p); reflexivity.
 Qed.
-
-Lemma acc_step_name mexp p e a : acc_step mexp p e = Some a -> p_name (a_param a) = p_name p.
+Lemma handle_writes_export p : p_export (fst (fst (handle_writes p))) = p_export p.
 Proof.
-  unfold acc_step. fold (p0_of mexp p).
-  assert (N0 : p_name (p0_of mexp p) = p_name p) by (destruct (p0_keeps mexp p) as [K _]; exact (k_name _ _ K)).
+  unfold handle_writes. destruct (p_dt p); [|reflexivity]. destruct (p_value p); [reflexivity|].
+  destruct (p_default p); reflexivity.
+Qed.
+Lemma post_name mexp p : p_name (post mexp p) = p_name p.
+Proof. destruct (post_keeps mexp p) as [K _]. exact (k_name _ _ K). Qed.
+
+(* the record produced for one accessible: name kept, the name-map entry is the export name of the parameter *)
+Lemma acc_step_shape mexp p e a : acc_step mexp p e = Some a ->
+  p_name (a_param a) = p_name p /\ a_name a = name_of (a_param a) /\ p_export (a_param a) <> XTrue.
+Proof.
+  unfold acc_step.
+  assert (G : forall pk, p_name pk = p_name p -> forall a0,
+    (if p_iscmd (post mexp pk) then forall es, a0 = {| a_param := post mexp pk; a_errs := es; a_write := None; a_name := name_of (post mexp pk) |} -> True else True) -> True) by auto.
+  clear G.
+  assert (S1 : forall pk es0, p_name pk = p_name p ->
+     (if p_iscmd (post mexp pk)
+      then Some {| a_param := post mexp pk; a_errs := es0; a_write := None; a_name := name_of (post mexp pk) |}
+      else let '(p1, es, w) := handle_writes (post mexp pk) in
+           Some {| a_param := p1; a_errs := es0 ++ es; a_write := w; a_name := name_of (post mexp pk) |}) = Some a ->
+     p_name (a_param a) = p_name p /\ a_name a = name_of (a_param a) /\ p_export (a_param a) <> XTrue).
+  { intros pk es0 Nk. destruct (post_keeps mexp pk) as [_ [_ [_ [_ [_ NX]]]]].
+    destruct (p_iscmd (post mexp pk)).
+    - intros H; inversion H; subst; simpl. rewrite post_name. auto.
+    - pose proof (handle_writes_name (post mexp pk)) as Nh. pose proof (handle_writes_export (post mexp pk)) as Xh.
+      destruct (handle_writes (post mexp pk)) as [[p2 es] w]. simpl in Nh, Xh.
+      intros H; inversion H; subst; simpl. rewrite Nh, post_name. split; [exact Nk|]. unfold name_of. rewrite Xh, Nh.
+      split; [reflexivity|exact NX]. }
   destruct e as [[v|en]|]; [discriminate| |].
-  - destruct (apply_entry_keep (p0_of mexp p) en) as [pk r] eqn:E.
+  - destruct (apply_entry_keep p en) as [pk r] eqn:E.
     pose proof (apply_entry_keep_name _ _ _ _ E) as Nk.
     destruct r as [|er|p1]; [discriminate| |].
-    + destruct (p_iscmd pk); [intros H; inversion H; simpl; congruence|].
-      pose proof (handle_writes_name pk) as Nh. destruct (handle_writes pk) as [[p2 es] w]. simpl in Nh.
-      intros H; inversion H; simpl; congruence.
+    + cbv zeta. intros H. apply (S1 pk [er] Nk). destruct (p_iscmd (post mexp pk)); [exact H|].
+      destruct (handle_writes (post mexp pk)) as [[p2 es] w]. exact H.
     + pose proof (apply_entry_keep_go _ _ _ _ E). subst pk.
-      destruct (p_iscmd p1); [intros H; inversion H; simpl; congruence|].
-      pose proof (handle_writes_name p1) as Nh. destruct (handle_writes p1) as [[p2 es] w]. simpl in Nh.
-      intros H; inversion H; simpl; congruence.
-  - cbv beta iota zeta. destruct (p_iscmd (p0_of mexp p)); [intros H; inversion H; simpl; congruence|].
-    pose proof (handle_writes_name (p0_of mexp p)) as Nh. destruct (handle_writes (p0_of mexp p)) as [[p2 es] w]. simpl in Nh.
-    intros H; inversion H; simpl; congruence.
+      cbv zeta. intros H. apply (S1 p1 [] Nk). destruct (p_iscmd (post mexp p1)); [exact H|].
+      destruct (handle_writes (post mexp p1)) as [[p2 es] w]. exact H.
+  - cbv beta iota zeta. intros H. apply (S1 p [] eq_refl). destruct (p_iscmd (post mexp p)); [exact H|].
+    destruct (handle_writes (post mexp p)) as [[p2 es] w]. exact H.
 Qed.
+
+Lemma acc_step_name mexp p e a : acc_step mexp p e = Some a -> p_name (a_param a) = p_name p.
+Proof. intros H. apply (acc_step_shape _ _ _ _ H). Qed.
 
 Definition active (ps : list param) : list param := filter (fun p => negb (p_optional p)) ps.
 
@@ -632,6 +659,16 @@ Proof.
   destruct (acc_step mexp p (assoc_str (p_name p) c)) as [a|] eqn:E; [|discriminate].
   destruct (phaseB mexp ps c) as [l|]; [|discriminate]. inversion H; subst. simpl.
   rewrite (acc_step_name _ _ _ _ E). f_equal. apply IH. reflexivity.
+Qed.
+
+Lemma phaseB_shape mexp c : forall ps accs, phaseB mexp ps c = Some accs ->
+  Forall (fun a => a_name a = name_of (a_param a) /\ p_export (a_param a) <> XTrue) accs.
+Proof.
+  induction ps as [|p ps IH]; intros accs H; simpl in H; [inversion H; constructor|].
+  destruct (p_optional p); [apply IH; exact H|].
+  destruct (acc_step mexp p (assoc_str (p_name p) c)) as [a|] eqn:E; [|discriminate].
+  destruct (phaseB mexp ps c) as [l|]; [|discriminate]. inversion H; subst.
+  constructor; [apply (acc_step_shape _ _ _ _ E)|apply IH; reflexivity].
 Qed.
 
 Lemma writes_of_nodup accs : NoDup (map (fun a => p_name (a_param a)) accs) -> NoDup (map fst (writes_of accs)).
@@ -647,6 +684,59 @@ Qed.
 Lemma created_write_nodup C c i : mod_init C c = Created i -> NoDup (map p_name (active (c_params C))) ->
   NoDup (map fst (i_write i)).
 Proof.
-  intros H ND. destruct (created_inv _ _ _ H) as [mv [accs [ps [_ [EB [_ [_ [_ [_ [_ Ei]]]]]]]]]]. subst i. simpl.
+  intros H ND. destruct (created_inv _ _ _ H) as [mv [accs [ps [_ [EB [_ [_ [_ [_ [_ [_ Ei]]]]]]]]]]]. subst i. simpl.
   apply writes_of_nodup. rewrite (phaseB_names _ _ _ _ EB). exact ND.
+Qed.
+
+(* ------------------------------------------------------------------ the name map of a created module *)
+Lemma dup_errs_nodup : forall l seen, dup_errs seen l = [] ->
+  NoDup (map fst (names_of l)) /\ forall x, In x (map fst (names_of l)) -> ~ In x seen.
+Proof.
+  unfold names_of. induction l as [|a l IH]; intros seen H; simpl in *.
+  - split; [constructor|intros x []].
+  - destruct (a_name a) as [[x n]|]; simpl.
+    + apply app_eq_nil in H. destruct H as [H1 H2]. destruct (IH _ H2) as [ND Hs].
+      destruct (mem_str x seen) eqn:E; [discriminate|]. split.
+      * constructor; [|exact ND]. intros Hin. apply (Hs x Hin). left. reflexivity.
+      * intros y [Hy|Hy]; [subst; intros Hin; apply mem_str_In in Hin; rewrite Hin in E; discriminate|].
+        intros Hin. apply (Hs y Hy). right. exact Hin.
+    + apply IH. exact H.
+Qed.
+
+Lemma map_opt_back {A B} (f : A -> option B) : forall l r y, map_opt f l = Some r -> In y r -> exists x, In x l /\ f x = Some y.
+Proof.
+  induction l as [|a l IH]; intros r y H Hin; simpl in H; [inversion H; subst; destruct Hin|].
+  destruct (f a) as [b|] eqn:E; [|discriminate]. destruct (map_opt f l) as [ys|] eqn:E2; [|discriminate].
+  inversion H; subst. destruct Hin as [Hy|Hin].
+  - subst. exists a. split; [left; reflexivity|exact E].
+  - destruct (IH ys y eq_refl Hin) as [x [Hx Hf]]. exists x. split; [right; exact Hx|exact Hf].
+Qed.
+
+Lemma finish_param_export p y : p_export p <> XTrue -> finish_param p = Some y -> p_export y = p_export p /\ p_name y = p_name p.
+Proof.
+  intros NX. unfold finish_param. destruct (p_iscmd p); [intros H; inversion H; auto|].
+  destruct (refit (p_dt p) (p_default p)); [|discriminate]. destruct (refit (p_dt p) (p_value p)); [|discriminate].
+  intros H; inversion H; subst; simpl. destruct (p_export p); try contradiction; auto.
+Qed.
+
+(* requests are resolved under exactly the export names of the final accessibles, each name at most once *)
+Lemma created_names C c i : mod_init C c = Created i ->
+  NoDup (map fst (i_names i)) /\
+  forall s n, In (s, n) (i_names i) <-> exists p', In p' (i_params i) /\ p_name p' = n /\ p_export p' = XName s.
+Proof.
+  intros H. destruct (created_inv _ _ _ H) as [mv [accs [ps [_ [EB [_ [Edup [_ [EF [_ [_ Ei]]]]]]]]]]]. subst i. simpl.
+  split; [apply (dup_errs_nodup _ _ Edup)|].
+  pose proof (phaseB_shape _ _ _ _ EB) as Sh. rewrite Forall_forall in Sh.
+  intros s n. unfold names_of. rewrite in_flat_map. split.
+  - intros [a [Ha Hn]]. destruct (Sh a Ha) as [Hna NX]. rewrite Hna in Hn. unfold name_of in Hn.
+    destruct (p_export (a_param a)) as [| |s'] eqn:Ex; [destruct Hn|destruct Hn|]. destruct Hn as [Hn|[]]. inversion Hn; subst.
+    destruct (map_opt_in finish_param _ _ (a_param a) EF) as [y [Hy Hyin]]; [apply in_map; exact Ha|].
+    destruct (finish_param_export _ _ NX Hy) as [Fx Fn].
+    destruct (apply_main_keeps (main_unit ps) y) as [M1 [_ [_ [_ [_ [_ M7]]]]]].
+    exists (apply_main (main_unit ps) y). split; [apply in_map; exact Hyin|]. split; [congruence|congruence].
+  - intros [p' [Hin [Hn Hx]]]. apply in_map_iff in Hin. destruct Hin as [y [Hy Hyin]]. subst p'.
+    destruct (map_opt_back finish_param _ _ y EF Hyin) as [q [Hq Hf]]. apply in_map_iff in Hq. destruct Hq as [a [Haq Ha]]. subst q.
+    destruct (Sh a Ha) as [Hna NX]. destruct (finish_param_export _ _ NX Hf) as [Fx Fn].
+    destruct (apply_main_keeps (main_unit ps) y) as [M1 [_ [_ [_ [_ [_ M7]]]]]].
+    exists a. split; [exact Ha|]. rewrite Hna. unfold name_of. rewrite <- Fx, <- M7, Hx. left. congruence.
 Qed.
